@@ -56,7 +56,7 @@ CURATED = {
     "mixture": { "_MixtureParts.__iter__": ("C08",), "MixtureKernel.release": ("C11",), "MixtureModel.release": ("C11",),
         MODULE_BODY: ("C08",),
         "make_mixture_info": ("C08",), "MixtureModel.__init__": ("C08",), "MixtureModel.make_kernel": ("C08",), "_intermediates": ("C08",),
-        "MixtureKernel.__init__": ("C08",), "MixtureKernel.Iq": ("C08", "C11", "C19",), "_MixtureParts.__init__": ("C08",), "_MixtureParts.__next__": ("C08",),
+        "MixtureKernel.__init__": ("C08",), "MixtureKernel.Iq": ("C06", "C08", "C11", "C19",), "_MixtureParts.__init__": ("C08",), "_MixtureParts.__next__": ("C08",),
         "_MixtureParts._part_details": ("C08",), "_MixtureParts._part_values": ("C08", "C19",),
     },
     "direct_model": { "DataMixin._set_data": ("C10",), "DirectModel.simulate_data": ("C10",),
@@ -76,13 +76,13 @@ CURATED = {
         # make_dll and compile_model are judged by the structural rules of C15/C17/C18 only: temporary-file naming, compiler
         # flags and directory handling may change without touching any property
         "dll_name": ("C15", "C17", "C18",), "dll_path": ("C17", "C18",), "load_dll": ("C15", "C17", "C18"),
-        "DllModel.__init__": ("C15", "C18"), "DllModel._load_dll": ("C15", "C18"), "DllModel.make_kernel": ("C01", "C11", "C15",),
+        "DllModel.__init__": ("C15", "C18"), "DllModel._load_dll": ("C15", "C17", "C18",), "DllModel.make_kernel": ("C01", "C11", "C15",),
         "DllKernel.__init__": ("C01", "C11"),
     },
     "kernelpy": { "PyModel.__init__": ("C09",), "PyKernel.release": ("C11",), "PyInput.release": ("C11",), "PyModel.release": ("C11",),
         MODULE_BODY: ("C09",),
         "PyModel.make_kernel": ("C09",), "PyInput.__init__": ("C01", "C03", "C04", "C09", "C10", "C11", "C15", "C19"), "PyKernel.__init__": ("C01", "C07", "C09", "C11",), "PyKernel._call_kernel": ("C01", "C06", "C07", "C09", "C11", "C14",),
-        "_loops": ("C01", "C07", "C09", "C11", "C14",), "_create_default_functions": ("C09", "C11",), "_create_vector_Iq": ("C09", "C11",), "_create_vector_Iqxy": ("C09", "C11",),
+        "_loops": ("C01", "C07", "C09", "C11", "C14",), "_create_default_functions": ("C09", "C11",), "_create_vector_Iq": ("C09", "C10", "C11", "C19",), "_create_vector_Iqxy": ("C09", "C10", "C11", "C19",),
     },
     "sasview_model": { "SasviewModel.getParamList": ("C10",), "SasviewModel.getDispParamList": ("C10",), "SasviewModel.is_fittable": ("C10",), "SasviewModel.calculate_ER": ("C10", "C14",), "SasviewModel.calculate_VR": ("C10", "C14",), "SasviewModel._dispersion_mesh": ("C10",), "SasviewModel.calc_composition_models": ("C10",), "MultiplicationModel": ("C07", "C10",), "SasviewModel.__get_state__": ("C11",), "SasviewModel.__set_state__": ("C11",), "find_model": ("C10",), "load_standard_models": ("C10",), "reset_environment": ("C11", "C17",),
         MODULE_BODY: ("C10", "C11"),
